@@ -24,6 +24,7 @@ static inline iora_result iora_result_ok(uint64_t v) { iora_result r = { 1, v, 0
 static inline iora_result iora_result_err(int code) { iora_result r = { 0, 0, code }; return r; }
 static inline bool iora_result_isOk(const iora_result *r) { return r->ok; }
 static inline bool iora_result_isErr(const iora_result *r) { return !r->ok; }
+static inline int iora_result_errcode(const iora_result *r) { IORA_ASSERT(!r->ok, "Result::error() on an error result"); return r->code; }
 static inline uint64_t iora_result_value(const iora_result *r) { IORA_ASSERT(r->ok, "Result::value() on an ok result"); return r->value; }
 
 /* struct Impl::SyncReceiveBuffer (+ ghost guard) */
